@@ -65,6 +65,25 @@ def advanceRow (ph : Phase) (a b c : Bool) : Bool × Phase × Bool × Bool :=
   let r := advance 1 c0 .base
   (r.2, r.1.phase, r.1.phaseAt == 1, r.1 != { c0 with phase := r.1.phase, phaseAt := r.1.phaseAt })
 
+/-- the three-party ring of the victim probe: op1 → op2 → op3 → op1 recorded, the three operations active with the
+    given priorities and creation times, no limits configured -/
+def victimSys (st : Strategy) (p1 p2 p3 : Int) (c1 c2 c3 : Nat) : Sys :=
+  { active := [{ id := 1, prio := p1, created := c1, phaseAt := c1 }, { id := 2, prio := p2, created := c2, phaseAt := c2 },
+               { id := 3, prio := p3, created := c3, phaseAt := c3 }]
+    edges := [(1, [(2, 1)]), (2, [(3, 2)]), (3, [(1, 3)])]
+    strategy := st }
+
+/-- whom the model's `Watchdog.check` names for the reason DEADLOCK on that ring -/
+def victimRow (st : Strategy) (p1 p2 p3 : Int) (c1 c2 c3 : Nat) : List Nat :=
+  (wdCheck (victimSys st p1 p2 p3 c1 c2 c3)).filterMap fun e => if e.2 = .deadlock then some e.1 else none
+
+def victimDomain : List (Strategy × Int × Int × Int × Nat × Nat × Nat) :=
+  let ps : List Int := [0, 1, 2]
+  let cs : List Nat := [0, 1, 2]
+  [Strategy.priority, .oldest, .other].flatMap fun st =>
+    ps.flatMap fun p1 => ps.flatMap fun p2 => ps.flatMap fun p3 =>
+      cs.flatMap fun c1 => cs.flatMap fun c2 => cs.map fun c3 => (st, p1, p2, p3, c1, c2, c3)
+
 /-- what the victim rule of the watchdog reads of a context -/
 def victimKey (c : Ctx) : Nat × Int × Nat := (c.id, c.prio, c.created)
 
